@@ -32,6 +32,9 @@ type cutConn struct {
 	remaining int
 	abrupt    bool
 	cut       bool
+	// afterReply: the cut happens only once more of the reply is on its way (one further read is awaited and thrown
+	// away), so with remaining == 0 the server has certainly processed the request: a reply lost, not a request lost
+	afterReply bool
 }
 
 var errConnReset = errors.New("read: connection reset by peer (injected)")
@@ -45,6 +48,9 @@ func (c *cutConn) Read(p []byte) (int, error) {
 		first := !c.cut
 		c.cut = true
 		c.mu.Unlock()
+		if first && c.afterReply {
+			c.Conn.Read(make([]byte, 1))
+		}
 		if first {
 			go c.Conn.Close()
 		}
